@@ -1875,9 +1875,11 @@ class Pipeline:
         else:
             output_nodes = {pipeline.node_mapping[n] for n in output_names}  # type: ignore[misc]
         between = _find_nodes_between(pipeline.graph, input_nodes, output_nodes)
-        drop = [f for f in pipeline.functions if f not in between]
-        for f in drop:
-            pipeline.drop(f=f)
+        # Drop all functions that are not needed at once, the pipelines in
+        # between (with only some of them dropped) do not have to be valid.
+        pipeline.functions = [f for f in pipeline.functions if f in between]
+        pipeline._clear_internal_cache()
+        pipeline._validate()
 
         if inputs is not None:
             new_root_args = set(pipeline.topological_generations.root_args)
